@@ -230,11 +230,14 @@ Definition accept (st : HOState) (f : Fields) (k : HitObjectKind) (bank : Sample
         (ho_objects st ++ [mkHObj (f_start f) k (samples_spec bank (f_sound f))]) (ho_mode st),
    Ok).
 
-(* "starts a new combo": flagged, or first object, or the remembered type of
-   the previous accepted line carries the spinner bit *)
+(* "starts a new combo": flagged, or first object, or the previous accepted
+   line was read as a spinner (kind precedence applied to its remembered type;
+   Proofs/C14Clauses.v shows that this IS the kind of the last object pushed) *)
+Definition type_is_spinner (k : Z) : bool :=
+  match kind_of_type k with Some 2 => true | _ => false end.
 Definition starts_combo (st : HOState) (t : Z) : bool :=
   flag_bit hot_new_combo t
-  || match ho_last st with None => true | Some k => flag_bit hot_spinner k end.
+  || match ho_last st with None => true | Some k => type_is_spinner k end.
 
 Definition combo_offset_spec (t : Z) : Z := if flag_bit hot_new_combo t then combo_bits t else 0.
 
